@@ -70,7 +70,10 @@ def schema_check(node):
     return True, x
 
 
-def make_hook(target_func, target_ordinal, stats=None):
+def make_hook(target_func, target_ordinal, stats=None, capture=False, head_assume=None):
+    """capture=True (step / extent obligations): the LoopSummarized info also carries the buffer the real prefix
+    computed before the loop (x0), the havocked buffer (old), the buffer after one iteration (new) and the local
+    variables after the iteration (env), so that a contract can relate them to the spec"""
     code = target_func.__code__
 
     def hook(frame, node):
@@ -89,8 +92,8 @@ def make_hook(target_func, target_ordinal, stats=None):
         import z3
 
         body_assigned = assigned_names(node.body)
-        target = loops[target_ordinal]
-        encloses_target = node is target or any(n is target for n in ast.walk(node))
+        target = loops[target_ordinal] if target_ordinal is not None else None  # None: every while is summarised
+        encloses_target = target is not None and (node is target or any(n is target for n in ast.walk(node)))
         if not encloses_target:
             # a loop nested in the target's body, or preceding the target: replaced by its summary (it has its own
             # variant unit): terminates; the buffer it consumes does not grow; accumulators are only appended to;
@@ -114,6 +117,7 @@ def make_hook(target_func, target_ordinal, stats=None):
                 elif c is not _MISSING:
                     frame.env[v] = _Poison(v)
             return True
+        x0 = frame.env.get(x)
         # havoc
         name = V.fresh_name("loop%d.%s" % (ordinal, x))
         n = V.sym_size(name + ".len", 1, MAXN)
@@ -138,6 +142,10 @@ def make_hook(target_func, target_ordinal, stats=None):
             elif cur is not _MISSING:
                 # must be (re)assigned before it is read in the body: a read makes the unit undecided
                 frame.env[v] = _Poison(v)
+        if head_assume is not None and ordinal == target_ordinal:
+            # precondition of the step obligation on the (fresh) loop-head buffer, known to the body's execution
+            for c in head_assume(frame, old):
+                ctx.assume(V.bexpr(c) if isinstance(c, (V.SBool, V.SInt)) else c)
         tv = frame.ev(node.test)
         if not I.truth(tv):
             return True  # loop exits
@@ -152,7 +160,10 @@ def make_hook(target_func, target_ordinal, stats=None):
             cond = V.compare("<", V.buf_len(new), V.buf_len(old)) if V.is_buffer(new) else False
             if stats is not None:
                 stats["reached"] = stats.get("reached", 0) + 1
-            raise LoopSummarized(dict(reached=True, variant=cond, old_len=V.buf_len(old), new_len=V.buf_len(new) if V.is_buffer(new) else None))
+            info = dict(reached=True, variant=cond, old_len=V.buf_len(old), new_len=V.buf_len(new) if V.is_buffer(new) else None)
+            if capture:
+                info.update(x0=x0, old=old, new=new, env=dict(frame.env), buffer_name=x)
+            raise LoopSummarized(info)
         # a loop enclosing / preceding the target: leave it after this iteration, buffer exhausted
         frame.env[x] = V.SBytes([], True)
         return True
@@ -169,7 +180,8 @@ def make_for_hook(target_func):
         if frame.f.__code__ is not code:
             return False
         it = frame.I.ctx.resolve(it)
-        if isinstance(it, (V.SBuf, V.SZeros)) and isinstance(frame.I.ctx.resolve(it.n), V.SInt):
+        if (isinstance(it, (V.SBuf, V.SZeros)) and isinstance(frame.I.ctx.resolve(it.n), V.SInt)) or isinstance(it, V.SymRange):
+            # (a SymRange got here only after its length was shown to be within the iteration bound)
             for v in assigned_names([node]):
                 cur = frame.env.get(v, _MISSING)
                 if not isinstance(cur, (list, dict)):
